@@ -20,6 +20,7 @@ type Env struct {
 	old   *State
 	vars  map[string]bound // quantifier variables, results, predicate parameters
 	prm   map[string]bound // function parameters (entry values); shadowed by live local cells
+	now   *State           // the current state, reachable from inside old()/atlock() via now(e)
 	local func(name string) (Val, types.Type, bool)
 	pkg   *types.Package
 	depth int
@@ -547,14 +548,26 @@ func (e *Env) call(x *ECall) (Val, types.Type) {
 			return e.fail("old() not available here")
 		}
 		oe := e.with(e.old)
+		if oe.now == nil {
+			oe.now = e.st
+		}
 		oe.local = nil // locals do not exist in the pre-state: names mean the parameters' entry values
 		return oe.eval(x.Args[0])
+	case "now":
+		if e.now == nil {
+			return e.eval(x.Args[0])
+		}
+		return e.with(e.now).eval(x.Args[0])
 	case "atlock", "atunlock":
 		snap := &State{m: map[string]Term{}}
 		for name := range t.vars {
 			snap.m[name] = t.get(e.st, x.Fun+":"+name)
 		}
-		return e.with(snap).eval(x.Args[0])
+		se := e.with(snap)
+		if se.now == nil {
+			se.now = e.st
+		}
+		return se.eval(x.Args[0])
 	case "len":
 		v, ty := arg(0)
 		switch u := ty.Underlying().(type) {
@@ -584,6 +597,14 @@ func (e *Env) call(x *ECall) (Val, types.Type) {
 		// the reference existed when this state was taken (fresh allocations are distinct from it)
 		v, _ := arg(0)
 		return Val{T: fmt.Sprintf("(and (<= 0 %s) (<= %s %s))", v.T, v.T, t.get(e.st, "alloc"))}, tBool
+	case "fresh":
+		// allocated by this function execution (after entry): cannot alias anything the caller knows
+		v, ty := arg(0)
+		a0 := t.get(t.entrySt, "alloc")
+		if _, ok := ty.Underlying().(*types.Slice); ok {
+			return Val{T: fmt.Sprintf("(or (> (sbase %s) %s) (and (= (sbase %s) 0) (= (scap %s) 0)))", v.T, a0, v.T, v.T)}, tBool
+		}
+		return Val{T: fmt.Sprintf("(> %s %s)", v.T, a0)}, tBool
 	case "base":
 		v, _ := arg(0)
 		return Val{T: fmt.Sprintf("(sbase %s)", v.T)}, tInt
